@@ -75,8 +75,10 @@ PREFIX_DROP1 = PREFIX + [(1, "FAKE_DROP 1")]
 PREFIX_DROP2P2 = PREFIX + [(1, "FAKE_DROP 2 2")]
 PREFIX_V1DROP1 = PREFIX[:4] + [(1, "SETFORMAT 1")] + PREFIX[4:] + [(1, "FAKE_DROP 1")]
 PREFIX_V1 = PREFIX[:4] + [(1, "SETFORMAT 1")] + PREFIX[4:]
-PREFIXES = {"v1": PREFIX_V1, "std": PREFIX, "mshop": PREFIX_MSHOP, "msoff": PREFIX_MSOFF, "drop1": PREFIX_DROP1, "drop2p2": PREFIX_DROP2P2,
+PREFIX_MUTEDROP1 = PREFIX + [(1, "FAKE_DROP 1"), (1, "RFMUTE 1")]
+PREFIXES = {"mutedrop1": PREFIX_MUTEDROP1, "v1mutedrop1": None, "v1": PREFIX_V1, "std": PREFIX, "mshop": PREFIX_MSHOP, "msoff": PREFIX_MSOFF, "drop1": PREFIX_DROP1, "drop2p2": PREFIX_DROP2P2,
             "v1drop1": PREFIX_V1DROP1}
+PREFIXES["v1mutedrop1"] = PREFIX_V1 + [(1, "FAKE_DROP 1"), (1, "RFMUTE 1")]
 DRAIN = [("c", 0, b"CMD POWERON\0"), ("t", F + 1), ("t", F + 2)]
 
 
@@ -153,7 +155,9 @@ class Scenario:
         mm = trxmodel.match(replies, [x for x in out0 if x[2] in ctrl_ports], m)
         if mm:
             return mm
-        m.ind_period = 0          # the drain ticks call the frame handler directly
+        # the drain ticks call the frame handler directly - except in the clock-generator scenarios, where they
+        # are complete ticks (indications to the links as the generator sees them now, then the handler)
+        m.ind_period = 1 if self.clock == "ind" else 0
         for st_, (out, ost) in zip(DRAIN, obs[1:]):
             if st_[0] == "c":
                 e = m.ctrl(st_[1], st_[2], ("127.0.0.1", self.defs[st_[1]].ctrl + 100))
@@ -246,6 +250,9 @@ class Scenario:
             if st_[0] == "c":
                 fab.inject(self.defs[st_[1]].ctrl, st_[2], ("127.0.0.1", self.defs[st_[1]].ctrl + 100))
                 world.pump(app)
+            elif self.clock == "ind":
+                app.clck_gen.clck_src = st_[1]
+                app.clck_gen.send_clck_ind()
             else:
                 app.clck_handler(st_[1])
             out = fab.reset_out()
@@ -292,6 +299,10 @@ def drop_scenarios(tier):
         for op in ("msdrop2", "msdrop0", "msdrop1_2", "msdrop1_3", "msmute1", "btsmute1"):
             out.append(Scenario([op], q, prefix=prefix))
     out.append(Scenario(["msmute1", "msmute0"], q, prefix="drop1"))
+    # the recipient is muted with a drop pending and gets unmuted while the burst is on its way: whichever way the
+    # race goes, the burst is suppressed (muted) or dropped (budget)
+    out.append(Scenario(["msmute0"], q, prefix="mutedrop1"))
+    out.append(Scenario(["msmute0"], q, prefix="v1mutedrop1"))
     out.append(Scenario(["msdrop2", "msdrop0"], q, prefix="std"))
     return out
 
